@@ -5,7 +5,7 @@
    validated and written to the next transaction file).  [ok = false] stands for every input that
    cannot be applied (short header, truncated, garbage, unacceptable page size). *)
 From Coq Require Import NArith List Bool.
-Require Import LF.Gen.ConstsGen LF.Model.PageDB LF.Proofs.XorLib LF.Proofs.ChainProofs LF.Proofs.ApplyProofs.
+Require Import LF.Gen.ConstsGen LF.Model.PageDB LF.Proofs.XorLib LF.Proofs.ChecksumProofs LF.Proofs.ChainProofs LF.Proofs.ApplyProofs LF.Proofs.HistoryProofs LF.Proofs.WalHistoryProofs LF.Proofs.WalCheckpointProofs LF.Proofs.SqlCheckpointProofs LF.Proofs.FollowProofs LF.Proofs.ExportProofs.
 Import ListNotations.
 Local Open Scope N_scope.
 
@@ -53,3 +53,39 @@ Example C16_nonvacuous :
   | None => False
   end.
 Proof. vm_compute. reflexivity. Qed.
+
+(* The image an export returns and the position it names belong together, along histories.  [hs], the switching transaction
+   and [os] as in C04_wal_full_history: any rollback-journal history from an empty node, the switch to WAL mode, then WAL
+   commits and checkpoints of every kind.  [op_export] returns [read_page] of every page 1..size (readPage of db.go: LiteFS's
+   index of the log, else the database file) and the position.  For EVERY such history: the position is the node's, its
+   checksum is the from-scratch checksum of the logical database [v'], and every page the export reads has [v']'s
+   checksum - the export is the image of the position it names (on a quiescent node; the interleaved case is C10). *)
+Theorem C16_export_matches_position : forall lock hs zf acts c os s1 s2 s' v',
+  1 <= lock -> wf_hist (init lock) hs -> run_hsteps (init lock) hs = Some s1 ->
+  wf_tx_any s1 zf acts -> run_group s1 (hops s1 (HTx zf acts c)) = (0, s2) -> wal_mode s2 = true ->
+  wf_wops2 s2 os -> run_wops2 s2 (file_h s2) os = Some (s', v') ->
+  snd (op_export s') = (txid s', chk s') /\
+  chk s' = scratch (fun p => if p =? lock then 0 else v' p) (pageN s') /\
+  (forall p q, 1 <= p <= pageN s' -> p <> lock -> read_page s' p = Some q -> pg_h q = v' p).
+Proof. exact export_matches_position. Qed.
+Print Assumptions C16_export_matches_position.
+
+(* Non-vacuity: at the end of this history the database file is behind the log (page 1 an older version, page 3 not there);
+   the export reads the logical database *)
+Example C16_export_matches_position_nonvacuous :
+  let pg h := mkPg (fl h) 0 false in
+  let pw h := mkPg (fl h) 0 true in
+  let hs := [HTx [] [AWrite 1 (pg 11); AWrite 2 (pg 12)] 2] in
+  let sw := [AWrite 1 (pw 13)] in
+  let os := [W2Commit [(2, pw 22); (3, pw 33); (2, pw 23)] 3; W2BackfillOld 2 (pw 22); W2Commit [(1, pw 14)] 2; W2Checkpoint;
+             W2Commit [(3, pw 35); (1, pw 15)] 3] in
+  exists s1 s2,
+    wf_hist (init 2097153) hs /\ run_hsteps (init 2097153) hs = Some s1 /\
+    wf_tx_any s1 [] sw /\ run_group s1 (hops s1 (HTx [] sw 2)) = (0, s2) /\ wal_mode s2 = true /\
+    wf_wops2 s2 os /\
+    match run_wops2 s2 (file_h s2) os with
+    | Some (s', v') => (op_export s', chk s' =? fl (N.lxor (N.lxor (fl 15) (fl 23)) (fl 35)), map (fpg s') [1; 2; 3])
+                       = (([Some (pw 15); Some (pw 23); Some (pw 35)], (5, chk s')), true, [pw 14; pw 23; zero_pg])
+    | None => False
+    end.
+Proof. exact export_example. Qed.
